@@ -683,6 +683,7 @@ package dnsmsg
 //@   requires b != nil && !sameObj(s, b.buf[:])
 //@   modifies b.buf, b.l
 //@   ensures [C11:root] (len(s) == 0 || (len(s) == 1 && s[0] == '.')) ==> err == nil && b.l == 0
+//@   ensures [C01:length-within-the-buffer] err == nil ==> int(b.l) <= 254
 //@   loop 1:
 //@     modifies b.buf, b.l
 //@     invariant 0 <= off && int(b.l) <= 253
